@@ -51,6 +51,8 @@ class Mode:
             base = f[1]
             if fn.cls is not None and fn.self_name and base == ("param", fn.self_name):
                 return m.find_method(fn.cls, f[2])
+            if op(base) == "cls" and base[1] in m.classes:
+                return m.find_method(m.classes[base[1]], f[2])
             if op(base) in ("param", "lv", "free"):
                 # annotated Converter parameter / unique method name in the package
                 hits = [x for x in m.methods_named(f[2]) if x.cls and x.cls.name == "Converter"]
